@@ -53,6 +53,10 @@ void *realloc(void *ptr, size_t len)
     if (critical_context_level() > 0)
         abort();
 
+    /* Rounding the request up to the allocation granule must not wrap. */
+    if (len > (size_t)-1 - __WORDSIZE)
+        return 0;
+
     std::lock_guard<igris::syslock> lguard(lock);
 
     if (len % __WORDSIZE != 0)
